@@ -1,2 +1,187 @@
 import Model
-def main : IO Unit := IO.println "cliffdrv"
+import Std.Data.HashMap
+
+/-! `cliffdrv`: line-protocol driver for the executable model (core Lean only, compiled).
+One request per line, one reply per line. See DESIGN.md Appendix C. -/
+open Model
+
+namespace Drv
+
+def fnv64 (s : String) : UInt64 :=
+  s.toUTF8.foldl (fun h b => (h ^^^ b.toUInt64) * 1099511628211) 14695981039346656037
+
+def parseRat (s : String) : Option Rat :=
+  match s.splitOn "/" with
+  | [p] => p.toInt?.map fun i => (i : Rat)
+  | [p, q] => do
+      let pi ← p.toInt?
+      let qi ← q.toNat?
+      if qi = 0 then none else some (mkRat pi qi)
+  | _ => none
+
+def parseList {α} (f : String → Option α) (s : String) : Option (List α) :=
+  if s == "" || s == "-" then some [] else (s.splitOn ",").mapM f
+
+def parseMV (s : String) : Option MV := (parseList parseRat s).map List.toArray
+def parseNats (s : String) : Option (List Nat) := parseList String.toNat? s
+def parseInts (s : String) : Option (List Int) := parseList String.toInt? s
+def parseOptNats (s : String) : Option (Option (List Nat)) :=
+  if s == "None" then some none else (parseNats s).map some
+
+def showRat (q : Rat) : String := if q.den = 1 then toString q.num else s!"{q.num}/{q.den}"
+def showMV (a : MV) : String := ",".intercalate (a.toList.map showRat)
+def showNats (l : List Nat) : String := ",".intercalate (l.map toString)
+def showInts (l : List Int) : String := ",".intercalate (l.map toString)
+
+def entryLt (a b : Entry) : Bool :=
+  a.k < b.k || (a.k == b.k && (a.l < b.l || (a.l == b.l && a.m < b.m)))
+
+/-- canonical text of a table: non-zero entries sorted by (k,l,m) -/
+def tableText (es : List Entry) : Nat × String :=
+  let nz := (es.filter (·.v != 0)).toArray.qsort entryLt
+  (nz.size, ";".intercalate (nz.toList.map fun e => s!"{e.k},{e.l},{e.m},{e.v}"))
+
+def pickTable (C : Ctx) : String → Option (List Entry)
+  | "gmt" => some C.gmt | "omt" => some C.omt | "imt" => some C.imt | "lcmt" => some C.lcmt | _ => none
+
+abbrev St := Std.HashMap String Ctx
+
+def showMat (m : Array (Array Rat)) : String := ";".intercalate (m.toList.map showMV)
+
+def opMV (C : Ctx) (name : String) (args : List String) : Option String := do
+  match name, args with
+  | "gp", [a, b] => some (showMV (C.gp (← parseMV a) (← parseMV b)))
+  | "op", [a, b] => some (showMV (C.op (← parseMV a) (← parseMV b)))
+  | "ip", [a, b] => some (showMV (C.ip (← parseMV a) (← parseMV b)))
+  | "lc", [a, b] => some (showMV (C.lc (← parseMV a) (← parseMV b)))
+  | "add", [a, b] => some (showMV (C.add (← parseMV a) (← parseMV b)))
+  | "sub", [a, b] => some (showMV (C.sub (← parseMV a) (← parseMV b)))
+  | "vee", [a, b] => some (showMV (C.vee (← parseMV a) (← parseMV b)))
+  | "neg", [a] => some (showMV (C.neg (← parseMV a)))
+  | "rev", [a] => some (showMV (C.rev (← parseMV a)))
+  | "gi", [a] => some (showMV (C.gradeInvol (← parseMV a)))
+  | "conj", [a] => some (showMV (C.conj (← parseMV a)))
+  | "lcomp", [a] => some (showMV (C.leftComp (← parseMV a)))
+  | "rcomp", [a] => some (showMV (C.rightComp (← parseMV a)))
+  | "dual", [a] => some (showMV (C.dual (← parseMV a)))
+  | "mag2", [a] => some (showRat (C.mag2 (← parseMV a)))
+  | "smul", [q, a] => some (showMV (C.smul (← parseRat q) (← parseMV a)))
+  | "ofscalar", [q] => some (showMV (C.ofScalar (← parseRat q)))
+  | "proj", [gs, a] => some (showMV (C.gradeProjs (← parseNats gs) (← parseMV a)))
+  | "grades", [eps, a] => some (showNats (C.gradesOf (← parseRat eps) (← parseMV a)))
+  | "pow", [n, a] => some (showMV (C.powNat (← parseMV a) (← n.toNat?)))
+  | "linv", [a] => match C.leftInvExact (← parseMV a) with
+      | some x => some (showMV x) | none => some "singular"
+  | "rinv", [a] => match C.rightInvExact (← parseMV a) with
+      | some x => some (showMV x) | none => some "singular"
+  | "revsigns", [] => some (showInts C.revSigns.toList)
+  | "gisigns", [] => some (showInts C.giSigns.toList)
+  | "lcompsigns", [] => some (showInts C.leftCompSigns.toList)
+  | "rcompsigns", [] => some (showInts C.rightCompSigns.toList)
+  | _, _ => none
+
+def handle (st : St) (line : String) : St × String :=
+  let toks := (line.splitOn " ").filter (· != "")
+  match toks with
+  | ["LAYOUT", name, sig, order] =>
+      match parseInts sig with
+      | none => (st, "err parse")
+      | some sg =>
+        let ord : Option (List Nat) := if order == "shortlex" then some (shortlexOrder sg.length) else parseNats order
+        match ord with
+        | none => (st, "err parse")
+        | some o =>
+          if o.eraseDups.length ≠ o.length then (st, "err ValueError")
+          else (st.insert name (mkCtx sg o), "ok")
+  | ["ORDER", name] =>
+      match st[name]? with
+      | some C => (st, s!"{showNats C.L.i2b.toList} {showNats C.L.grades.toList} {showNats C.L.b2i.toList}")
+      | none => (st, "err nolayout")
+  | ["TABLE", name, which] =>
+      match st[name]? with
+      | some C => match pickTable C which with
+        | some es => let (n, t) := tableText es; (st, s!"{n} {fnv64 t}")
+        | none => (st, "err table")
+      | none => (st, "err nolayout")
+  | ["TABLEFULL", name, which] =>
+      match st[name]? with
+      | some C => match pickTable C which with
+        | some es => let (n, t) := tableText es; (st, s!"{n} {t}")
+        | none => (st, "err table")
+      | none => (st, "err nolayout")
+  | ["SIGN", a, b, sig] =>
+      match a.toNat?, b.toNat?, parseInts sig with
+      | some a, some b, some sg =>
+        let r := gmtElement (fun i => sg.getD i 0) a b
+        (st, s!"{r.1} {r.2}")
+      | _, _, _ => (st, "err parse")
+  | ["SIGNE", a, b] =>
+      match a.toNat?, b.toNat? with
+      | some a, some b => (st, s!"{signE a b}")
+      | _, _ => (st, "err parse")
+  | ["POP", x] =>
+      match x.toNat? with
+      | some x => (st, s!"{popcount x} {countSetBitsLoop x} {showNats (setBitIndices x)}")
+      | none => (st, "err parse")
+  | ["TUPLE", ps] =>
+      match parseNats ps with
+      | some ps => match tupleLoop ps 1 0 with
+        | some (s, bm) => (st, s!"{s} {bm}")
+        | none => (st, "err ValueError")
+      | none => (st, "err parse")
+  | ["SHORTLEX", n] =>
+      match n.toNat? with
+      | some n => (st, showNats (shortlexOrder n))
+      | none => (st, "err parse")
+  | ["SIGCL", p, q, r] =>
+      match p.toNat?, q.toNat?, r.toNat? with
+      | some p, some q, some r => (st, showInts (sigOfCl p q r))
+      | _, _, _ => (st, "err parse")
+  | ["K", name, which, shape, a, b] =>
+      match st[name]?, parseMV a, parseMV b with
+      | some C, some a, some b => match pickTable C which with
+        | some es =>
+          if shape == "dense" then (st, showMV (multDense C.dims es a b))
+          else if shape == "sparse" then (st, showMV (multSparse C.dims es a b))
+          else if shape == "contraction" then (st, showMV ((Array.range C.dims).map (contraction es a b)))
+          else (st, "err shape")
+        | none => (st, "err table")
+      | _, _, _ => (st, "err parse")
+  | ["KG", name, which, ga, gb, a, b] =>
+      match st[name]?, parseOptNats ga, parseOptNats gb, parseMV a, parseMV b with
+      | some C, some ga, some gb, some a, some b => match pickTable C which with
+        | some es => (st, showMV (getMultFunction C.dims C.L.gradeF es ga gb a b))
+        | none => (st, "err table")
+      | _, _, _, _, _ => (st, "err parse")
+  | ["LMAT", name, x] =>
+      match st[name]?, parseMV x with
+      | some C, some x => (st, showMat (leftMat C.dims C.gmt x))
+      | _, _ => (st, "err parse")
+  | ["RMAT", name, x] =>
+      match st[name]?, parseMV x with
+      | some C, some x => (st, showMat (rightMat C.dims C.gmt x))
+      | _, _ => (st, "err parse")
+  | "OP" :: name :: op :: args =>
+      match st[name]? with
+      | some C => match opMV C op args with
+        | some r => (st, r)
+        | none => (st, "err op")
+      | none => (st, "err nolayout")
+  | [] => (st, "")
+  | _ => (st, "err unknown")
+
+partial def loop (h : IO.FS.Stream) (out : IO.FS.Stream) (st : St) : IO Unit := do
+  let line ← h.getLine
+  if line.isEmpty then return ()
+  let l := ((line.splitOn "\n").headD "")
+  let (st', r) := handle st l
+  out.putStrLn r
+  loop h out st'
+
+end Drv
+
+def main : IO Unit := do
+  let stdin ← IO.getStdin
+  let stdout ← IO.getStdout
+  Drv.loop stdin stdout {}
+  stdout.flush
